@@ -24,6 +24,7 @@ use barter::{
     },
     execution::AccountStreamEvent,
 };
+use barter_data::{event::DataKind, subscription::{candle::Candle, liquidation::Liquidation}};
 use barter_execution::{
     AccountEvent, AccountEventKind,
     order::id::{OrderId, StrategyId},
@@ -122,7 +123,19 @@ fn exit_json<K>(p: &PositionExited<QuoteAsset, K>) -> Value {
     })
 }
 
+fn market_kind(instrument: usize, time_ms: i64, kind: DataKind) -> EngineEvent {
+    EngineEvent::Market(barter_data::streams::consumer::MarketStreamEvent::Item(barter_data::event::MarketEvent {
+        time_exchange: t(time_ms),
+        time_received: fixtures::next_receive_time(),
+        exchange: ExchangeId::BinanceSpot,
+        instrument: InstrumentIndex(instrument),
+        kind,
+    }))
+}
+
 struct Outcome {
+    /// engine-side environment cells observed (market events between fills, orders on the tick of a fill)
+    env: Vec<String>,
     kinds: Vec<&'static str>,
     obs: Vec<Value>,
     steps: u64,
@@ -136,14 +149,18 @@ type V = (&'static str, String);
 fn run_sequence(fills: &[Fill], with_engine: bool, want_obs: bool) -> Result<Outcome, V> {
     let mut pm: PositionManager<u64> = PositionManager::default();
     let mut led = Ledger::default();
-    let mut out = Outcome { kinds: vec![], obs: vec![], steps: 0, checks: 0 };
+    let mut out = Outcome { env: vec![], kinds: vec![], obs: vec![], steps: 0, checks: 0 };
 
     let mut engine = if with_engine {
         let instruments = IndexedInstruments::new([
             fixtures::spot(ExchangeId::BinanceSpot, "btc", "usdt"),
             fixtures::spot(ExchangeId::BinanceSpot, "eth", "usdt"),
         ]);
-        Some(fixtures::engine_with_rec_txs(&instruments, TradingState::Disabled).0)
+        // engine-side environment, derived from the fills themselves so that replays and shrinks are stable:
+        // algorithmic trading is enabled for half of the sequences (the scripted strategy then issues orders
+        // on the very tick of some fills), and market events - priced and price-less - arrive between fills
+        let enabled = fills.first().map(|f| f.id % 2 == 0).unwrap_or(false);
+        Some(fixtures::engine_with_rec_txs(&instruments, if enabled { TradingState::Enabled } else { TradingState::Disabled }).0)
     } else {
         None
     };
@@ -159,6 +176,33 @@ fn run_sequence(fills: &[Fill], with_engine: bool, want_obs: bool) -> Result<Out
 
         // engine path: same fill on instrument 1 of a real engine; must agree with the unit path
         if let Some(engine) = engine.as_mut() {
+            // a market event for the instrument before the fill: never touches the position's bookkeeping
+            // (only its unrealised estimate), whether or not it carries a price
+            let (pf, _, _) = f.dec();
+            let t_ms = idx as i64 * 1000 + 500;
+            let pre: Option<(&'static str, EngineEvent)> = match f.id % 7 {
+                0 => Some(("l1_without_levels", fixtures::ev_market_l1(ExchangeId::BinanceSpot, 1, t_ms, None, None))),
+                1 => Some(("liquidation", market_kind(1, t_ms, DataKind::Liquidation(Liquidation { side: Side::Sell, price: 1.0, quantity: 1.0, time: t(t_ms) })))),
+                2 => Some(("candle", market_kind(1, t_ms, DataKind::Candle(Candle { close_time: t(t_ms), open: 1.0, high: 2.0, low: 0.5, close: 1.5, volume: 3.0, trade_count: 4 })))),
+                3 => Some(("public_trade", fixtures::ev_market_trade(ExchangeId::BinanceSpot, 1, t_ms, rust_decimal::prelude::ToPrimitive::to_f64(&pf).unwrap_or(1.0)))),
+                4 => Some(("other_instrument", fixtures::ev_market_trade(ExchangeId::BinanceSpot, 0, t_ms, 123.0))),
+                _ => None,
+            };
+            if let Some((what, ev)) = pre {
+                let before = engine.state.instruments.instrument_index(&InstrumentIndex(1)).position.current.as_ref().map(pos_json);
+                catch(|| engine.process(ev)).map_err(|m| ("panic_in_engine_market_processing", format!("before fill #{idx}: {what}: {m}")))?;
+                let after = engine.state.instruments.instrument_index(&InstrumentIndex(1)).position.current.as_ref().map(pos_json);
+                out.checks += 1;
+                out.steps += 1;
+                if before != after {
+                    return Err(("market_event_changed_position_bookkeeping", format!("before fill #{idx}: a {what} market event changed the open position {before:?} -> {after:?}")));
+                }
+                out.env.push(if before.is_some() { format!("market:{what}:with_open_position") } else { format!("market:{what}") });
+            }
+            if engine.state.trading == TradingState::Enabled && f.id % 3 == 0 {
+                engine.strategy.push((vec![], vec![fixtures::req_open(0, (f.id % 2) as usize, &format!("algo{idx}"), Side::Buy, Decimal::ONE, Decimal::ONE)]));
+                out.env.push("strategy_issues_orders_on_the_tick_of_a_fill".into());
+            }
             let ev: EngineEvent = EngineEvent::Account(AccountStreamEvent::Item(AccountEvent {
                 exchange: ExchangeIndex(0),
                 kind: AccountEventKind::Trade(trade(f, idx, InstrumentIndex(1))),
@@ -176,6 +220,9 @@ fn run_sequence(fills: &[Fill], with_engine: bool, want_obs: bool) -> Result<Out
                 EngineAudit::FeedEnded => vec![],
             };
             out.checks += 1;
+            if exit.is_some() && engine.state.trading == TradingState::Enabled && f.id % 3 == 0 {
+                out.env.push("position_closed_on_a_tick_that_also_generated_orders".into());
+            }
             if exits.len() != exit.iter().count() {
                 return Err(("engine_audit_exit_record_mismatch", format!("fill #{idx}: unit path emitted {} exit, engine audit carries {}", exit.iter().count(), exits.len())));
             }
@@ -469,6 +516,9 @@ fn execute(fills: &[Fill], with_engine: bool, report: &mut Report, log: &LogSink
             if with_engine {
                 report.cover("engine_path");
             }
+            for c in &out.env {
+                report.cover(c);
+            }
             if nontrivial && fills.len() <= 8 {
                 report.sample(|| json!({"fills": fills, "kinds": out.kinds}));
             }
@@ -520,7 +570,9 @@ fn main() {
     });
     log.flush();
     if args.tier != "miri" {
-        for c in ["open", "increase", "reduce", "close", "flip", "flip->reduce", "reduce->increase", "flip->flip", "zero_fee", "nonzero_fee", "engine_path", "close->open"] {
+        for c in ["open", "increase", "reduce", "close", "flip", "flip->reduce", "reduce->increase", "flip->flip", "zero_fee", "nonzero_fee", "engine_path", "close->open",
+            "market:l1_without_levels:with_open_position", "market:liquidation:with_open_position", "market:candle:with_open_position", "market:public_trade:with_open_position",
+            "strategy_issues_orders_on_the_tick_of_a_fill", "position_closed_on_a_tick_that_also_generated_orders"] {
             report.require(c);
         }
     }
